@@ -82,7 +82,7 @@ class Roll(Operation):
             raise IndexError
         rev_shift = (
             -self.shift
-            if not hasattr(self.shift, "__iter__")
+            if not hasattr(self.shift, "__iter__") or np.ndim(self.shift) == 0
             else tuple(-i for i in self.shift)
         )
         return np.roll(grad, axis=self.axis, shift=rev_shift)
